@@ -523,7 +523,7 @@ package vegeta
 
 // The worker: one result per tick, Done exactly once.
 //@ func (*Attacker).attack
-//@   property C02 C03
+//@   property C02 C03 C05
 //@   requires [non-nil] a != nil && atk != nil && workers != nil && ticks != nil && results != nil && tr != nil
 //@   requires [hit-preconditions] atk.began <= clock(0) && atk.began >= 0 && !held(&atk.seqmu) && a.stopch != nil && (closed(a.stopch) <==> done(&a.stopOnce))
 //@   ghost taken int
@@ -531,10 +531,14 @@ package vegeta
 //@   ghost hits int
 //@   ghost lastHit int
 //@   ghost dones int
+//@   ghost ts0 int
+//@   ghost lat0 int
+//@   ghost seq0 int
 //@   at recv ticks: ghost taken = taken + (result1 ? 1 : 0)
-//@   before call hit: assert [C02-hit-only-for-a-received-tick] taken == sent + 1 && hits == sent
-//@   at call hit: ghost hits = hits + 1 ; ghost lastHit = ref(result)
-//@   at send results: assert [C02-delivers-exactly-that-hit] hits == sent + 1 && ref(arg0) == lastHit && arg0 != nil ; ghost sent = sent + 1
+//@   before call hit: assert [C02-hit-only-for-a-received-tick] taken == sent + 1 && hits == sent ; assert [hit-draws-from-the-attack's-own-targeter] ref(arg1) == ref(tr) && arg2 == atk
+//@   at call hit: ghost hits = hits + 1 ; ghost lastHit = ref(result) ; ghost ts0 = result.Timestamp ; ghost lat0 = result.Latency ; ghost seq0 = result.Seq
+//@   at send results: assert [C02-delivers-exactly-that-hit] hits == sent + 1 && ref(arg0) == lastHit && arg0 != nil ;
+//@        assert [C05-delivered-as-hit-stamped-it] arg0.Timestamp == ts0 && arg0.Latency == lat0 && arg0.Seq == seq0 ; ghost sent = sent + 1
 //@   at call Done: assert [C02-done-once-at-exit] dones == 0 && taken == sent ; ghost dones = dones + 1
 //@   ensures [C02-one-result-per-tick] taken == sent && hits == sent && dones == 1
 //@   loop 1
